@@ -14,7 +14,9 @@ import Sebuf.JsonSchema
   `<short message name>.<field>`.
 * `mockMsg` — the value a mock RPC returns, field by field, following the
   `switch field.Desc.Kind()` of `generateMockFieldAssignments`, with every random draw an explicit
-  parameter (`Env.pick`, `Env.rnd`, indexed by the call site).
+  parameter (`Env.pick`, `Env.rnd`, indexed by the call site). Since b58be88 the recursion carries
+  the set of messages on the current path (`visiting`): a singular message field or a map value
+  whose type is on the path is left unset.
 * `stmtDefects` — the Go typing of every emitted assignment statement (the emitter consults
   neither cardinality nor oneof membership, and its selectors return `int64` / `float64`).
 
@@ -430,16 +432,19 @@ def mapScalarDefault : Kind → Val
   | .float | .double => .float "3.14".toList false
   | _ => .str []
 
-/-- one field of the response: `none` = nothing assigned, or a proto3 default (not populated). -/
-def mockField (rq : Request) (env : Env) (recMsg : Str → Message → List (Str × Val)) (site mname : Str) (f : Field) : Option Val :=
+/-- one field of the response: `none` = nothing assigned, or a proto3 default (not populated).
+`vis` = full names of the messages being filled on the current path (`visiting`, the enclosing
+message included): a singular message field or a map value whose type is on the path is left unset. -/
+def mockField (rq : Request) (env : Env) (vis : List Str) (recMsg : Str → Message → List (Str × Val)) (site mname : Str) (f : Field) : Option Val :=
   let key := mname ++ ['.'] ++ f.name
   if f.card == .map then
-    let v := if f.kind == .message then
+    if f.kind == .message then
+      if vis.contains f.typeName then none
+      else
         (match rq.findMessage f.typeName with
-         | some c => Val.msg (recMsg (site ++ "[]".toList) c)
-         | none => Val.msg [])
-      else mapScalarDefault f.kind
-    some (.map [(sampleKeyText f.mapKey, v)])
+         | some c => some (.map [(sampleKeyText f.mapKey, Val.msg (recMsg (site ++ "[]".toList) c))])
+         | none => some (.map [(sampleKeyText f.mapKey, Val.msg [])]))
+    else some (.map [(sampleKeyText f.mapKey, mapScalarDefault f.kind)])
   else match actionOf f.kind with
     | .selString => (match selString env site key f.name with
         | none => some badUtf8
@@ -450,39 +455,42 @@ def mockField (rq : Request) (env : Env) (recMsg : Str → Message → List (Str
     | .selFloat => let r := selFloat env site key; if r.zero then none else some (.float r.tok r.quoted)
     | .message =>
       if f.card == .repeated then none
+      else if vis.contains f.typeName then none
       else (match rq.findMessage f.typeName with
         | some c => some (.msg (recMsg site c))
         | none => some (.msg []))
     | .todo => none
 
-/-- the response of a mock RPC whose output type is `m` (`site` names the variable path). Fuel: the
-emitter's recursion has no visited set; it finishes iff the type graph below `m` is acyclic. -/
-def mockMsg (rq : Request) (env : Env) : Nat → Str → Message → List (Str × Val)
-  | 0, _, _ => []
-  | fuel + 1, site, m =>
+/-- the response of a mock RPC whose output type is `m`; `path` = the messages being filled above
+`m` (empty for the response type), `site` names the variable path. The recursion carries a path
+guard (`visiting`), so it ends on every type graph; fuel `#messages + 1` is never exhausted. -/
+def mockMsg (rq : Request) (env : Env) : Nat → List Str → Str → Message → List (Str × Val)
+  | 0, _, _, _ => []
+  | fuel + 1, path, site, m =>
     m.fields.filterMap fun f =>
-      (mockField rq env (mockMsg rq env fuel) (site ++ ['.'] ++ f.name) m.name f).map fun v => (f.name, v)
+      (mockField rq env (m.fullName :: path) (mockMsg rq env fuel (m.fullName :: path)) (site ++ ['.'] ++ f.name) m.name f).map fun v => (f.name, v)
 
-/-- does the emitter's recursion below `m` finish within `fuel` levels? -/
-def finishes (rq : Request) : Nat → Message → Bool
-  | 0, _ => false
-  | fuel + 1, m => m.fields.all fun f =>
-      if f.kind == .message && f.card != .repeated then
-        (match rq.findMessage f.typeName with | some c => finishes rq fuel c | none => true)
+/-- does the emitter's (path-guarded) recursion below `m` finish within `fuel` levels? -/
+def finishes (rq : Request) : Nat → List Str → Message → Bool
+  | 0, _, _ => false
+  | fuel + 1, path, m => m.fields.all fun f =>
+      if f.kind == .message && f.card != .repeated && !(m.fullName :: path).contains f.typeName then
+        (match rq.findMessage f.typeName with | some c => finishes rq fuel (m.fullName :: path) c | none => true)
       else true
 
 /-- every call site of a selector below `m`, with the candidates count it draws from. -/
-def sites (rq : Request) (env : Env) : Nat → Str → Message → List (Str × Nat)
-  | 0, _, _ => []
-  | fuel + 1, site, m => m.fields.flatMap fun f =>
+def sites (rq : Request) (env : Env) : Nat → List Str → Str → Message → List (Str × Nat)
+  | 0, _, _, _ => []
+  | fuel + 1, path, site, m => m.fields.flatMap fun f =>
       let s := site ++ ['.'] ++ f.name
+      let vis := m.fullName :: path
       if f.card == .map then
-        (if f.kind == .message then
-          (match rq.findMessage f.typeName with | some c => sites rq env fuel (s ++ "[]".toList) c | none => [])
+        (if f.kind == .message && !vis.contains f.typeName then
+          (match rq.findMessage f.typeName with | some c => sites rq env fuel vis (s ++ "[]".toList) c | none => [])
          else [])
       else match actionOf f.kind with
-        | .message => if f.card == .repeated then [] else
-            (match rq.findMessage f.typeName with | some c => sites rq env fuel s c | none => [])
+        | .message => if f.card == .repeated || vis.contains f.typeName then [] else
+            (match rq.findMessage f.typeName with | some c => sites rq env fuel vis s c | none => [])
         | .todo => []
         | _ => [(s, max 4 (env.tbl.get (m.name ++ ['.'] ++ f.name)).length)]
 
@@ -502,11 +510,13 @@ def envOf (f : File) (d : Decls) (floats : List (Str × FloatRow) := []) (pick :
 
 /-! ## 6. `Impl`: Go typing of the emitted assignments -/
 
-/-- defect classes of the statements emitted for one field (`recMsg` = defects below a child type). -/
-def stmtDefects (rq : Request) (recMsg : Message → List String) (f : Field) : List String :=
+/-- defect classes of the statements emitted for one field (`recMsg` = defects below a child type;
+nothing is emitted for a message type on the path `vis`). -/
+def stmtDefects (rq : Request) (vis : List Str) (recMsg : Message → List String) (f : Field) : List String :=
   if f.card == .map then
     if f.kind == .message then
-      (if isTimestampName f.typeName then ["selector_type_mismatch"]
+      (if vis.contains f.typeName then []
+       else if isTimestampName f.typeName then ["selector_type_mismatch"]
        else match rq.findMessage f.typeName with | some c => recMsg c | none => [])
     else
       (if emittedScalarTy f.kind != goScalar f.kind then ["map_value_type"] else []) ++
@@ -515,6 +525,7 @@ def stmtDefects (rq : Request) (recMsg : Message → List String) (f : Field) : 
     | .todo => []
     | .message =>
       if f.card == .repeated then []
+      else if vis.contains f.typeName then []
       else
         if f.oneof.isSome then ["oneof_member"]
         else if isTimestampName f.typeName then ["selector_type_mismatch"]   -- Timestamp.nanos is int32
@@ -526,9 +537,9 @@ def stmtDefects (rq : Request) (recMsg : Message → List String) (f : Field) : 
       else if a.retTy != goScalar f.kind then ["selector_type_mismatch"]
       else []
 
-def msgDefects (rq : Request) : Nat → Message → List String
-  | 0, _ => []
-  | fuel + 1, m => m.fields.flatMap (stmtDefects rq (msgDefects rq fuel))
+def msgDefects (rq : Request) : Nat → List Str → Message → List String
+  | 0, _, _ => []
+  | fuel + 1, path, m => m.fields.flatMap (stmtDefects rq (m.fullName :: path) (msgDefects rq fuel (m.fullName :: path)))
 
 /-! ## 7. `Spec` -/
 
